@@ -67,3 +67,21 @@ Print Assumptions C07_getmany.
 Print Assumptions C07_getmany_ignores_non_data.
 Print Assumptions C07_getmany_report.
 Print Assumptions C07_error_family.
+
+(* --- the Python layer (Model/PyLayer.v) hands get / get_many's result or exception through unchanged (BlockingIOError
+   becomes TimeoutError in the blocking client; in the asyncio client "nothing yet" is retried and the timer gives TimeoutError) *)
+From GS Require Import Model.Base Model.Exc Model.Walk Model.PyLayer Proofs.PyLayerProofs.
+Theorem C07_python_sync_passthrough :
+  forall (cfg : pycfg) (fuel : nat) (a : api) (t : tok) (r : list tok), pc_mode cfg = Sync -> match a with | ApiGet _ | ApiGetMany _ => True | _ => False end -> r_end (run_api cfg fuel a (t :: r)) = remap_sync false t /\ r_rest (run_api cfg fuel a (t :: r)) = r.
+Proof. exact sync_single_passthrough. Qed.
+
+Theorem C07_python_async_passthrough :
+  forall (cfg : pycfg) (fuel : nat) (a : api) (s0 : sval) (t : tok) (r : list tok), pc_mode cfg = Async -> match a with | ApiGet _ | ApiGetMany _ => True | _ => False end -> t <> TRaise EBlockingIO -> r_end (run_api cfg fuel a (TRet s0 :: t :: r)) = recv_out t /\ r_rest (run_api cfg fuel a (TRet s0 :: t :: r)) = r.
+Proof. exact async_single_passthrough. Qed.
+
+Check C07_python_sync_passthrough :
+  forall (cfg : pycfg) (fuel : nat) (a : api) (t : tok) (r : list tok), pc_mode cfg = Sync -> match a with | ApiGet _ | ApiGetMany _ => True | _ => False end -> r_end (run_api cfg fuel a (t :: r)) = remap_sync false t /\ r_rest (run_api cfg fuel a (t :: r)) = r.
+Check C07_python_async_passthrough :
+  forall (cfg : pycfg) (fuel : nat) (a : api) (s0 : sval) (t : tok) (r : list tok), pc_mode cfg = Async -> match a with | ApiGet _ | ApiGetMany _ => True | _ => False end -> t <> TRaise EBlockingIO -> r_end (run_api cfg fuel a (TRet s0 :: t :: r)) = recv_out t /\ r_rest (run_api cfg fuel a (TRet s0 :: t :: r)) = r.
+Print Assumptions C07_python_sync_passthrough.
+Print Assumptions C07_python_async_passthrough.
